@@ -905,7 +905,9 @@ def judge_evolve(chk, case, obs, rep):
             t = tuple(x + y for x, y in kk)
             ps_[t] = ps_.get(t, 0.0) + abs(a) ** 2
         same_probs = all(abs(pg.get(t, 0) - ps_.get(t, 0)) < 1e-6 for t in set(pg) | set(ps_))
-        sig = "evolve-annotations" if same_probs else "evolve-amplitudes-differ"
+        same_moduli = all(abs(abs(got.get(kk, 0)) - abs(spec.get(kk, 0))) < 1e-6 for kk in set(got) | set(spec))
+        sig = "evolve-phases-differ" if same_moduli else ("evolve-annotations" if same_probs else
+                                                          "evolve-amplitudes-differ")
         return ("violation", sig, f"{what}: amplitude of the output with (P:H, P:V) photons per mode {list(k)} is "
                 f"{got.get(k, 0)!r}, the doubled-mode specification gives {spec.get(k, 0)!r} ({len(bad)} entries differ"
                 f"{'; the |amplitude|² per spatial state agree' if same_probs else ''})", replay)
@@ -1183,7 +1185,9 @@ def judge_probs(chk, case, obs, rep):
             got[k] = got.get(k, 0) + a
         if status == "ok" and ("anomaly" in obs or
                                any(abs(got.get(k, 0) - spec.get(k, 0)) > 1e-6 for k in set(got) | set(spec))):
-            return ("violation", "evolve-annotations" if "anomaly" in obs else "evolve-amplitudes-differ",
+            same_moduli = all(abs(abs(got.get(k, 0)) - abs(spec.get(k, 0))) < 1e-6 for k in set(got) | set(spec))
+            return ("violation", "evolve-annotations" if "anomaly" in obs else
+                    ("evolve-phases-differ" if same_moduli else "evolve-amplitudes-differ"),
                     f"{case['path']}({case['backend']}).evolve({state_text(case['modes'])}): {why}; the |amplitude|² "
                     "summed per spatial state agree with probs", replay)
         return ("broken", "model-vs-code", "Lean model and implementation disagree on evolve amplitudes but the direct "
